@@ -28,6 +28,9 @@ LAYERS = {
             ("source", "{ let h = t.header.borrow(); h.source.0 == raw[off+6] && h.source.1 == raw[off+7] && h.source.2 == raw[off+8] && h.source.3 == raw[off+9] && h.source.4 == raw[off+10] && h.source.5 == raw[off+11] }"),
         ]),
     "ipv4": dict(ty="Ipv4Packet", file="src/builtins/protocols/ipv4.rs", hdr=20, extra=8, maxoff=1,
+        # the serialiser copies an options vector whose length is 4*IHL-20: CBMC needs that length concrete, so the
+        # serialising harnesses fix the first header byte (version 4; IHL 3 = malformed, 5 = no options, 6 and 7 = options)
+        ser_first_bytes=[0x43, 0x45, 0x46, 0x47], set_first_bytes=[0x45, 0x46],
         # header length is max(20, 4*IHL): parse must fail exactly when that does not fit
         hdrlen_expr="{ let l = ((raw[off] & 0x0F) as usize) * 4; if l > 20 { l } else { 20 } }",
         fields=[
@@ -84,12 +87,16 @@ def gen_layer(key):
     nf = len(fields)
     hdrlen = L.get("hdrlen_expr", "%d" % H)
     offs = sorted(set([0, MO]))
+    ser_vars = [("_b%02x" % b, "Some(0x%02x)" % b) for b in L["ser_first_bytes"]] if L.get("ser_first_bytes") else [("", "None")]
+    set_vars = [("_b%02x" % b, "Some(0x%02x)" % b) for b in L["set_first_bytes"]] if L.get("set_first_bytes") else [("", "None")]
     out = []
     w = out.append
     w("#[cfg(kani)]\nmod verif_%s {\n    use super::*;\n%s" % (key, PRELUDE))
     w("    const N: usize = %d;\n" % N)
     w("    fn any_raw() -> ([u8; N], Rc<Vec<u8>>) {\n        let a: [u8; N] = kani::any();\n"
       "        (a, Rc::new(a.to_vec()))\n    }\n")
+    w("    fn any_raw_at(off: usize, first: Option<u8>) -> ([u8; N], Rc<Vec<u8>>) {\n        let mut a: [u8; N] = kani::any();\n"
+      "        if let Some(b) = first { a[off] = b; }\n        (a, Rc::new(a.to_vec()))\n    }\n")
     w("    fn snapshot(t: &%s) -> [u64; %d] {\n        [%s]\n    }\n" % (ty, nf, ", ".join("val_of(t.%s())" % f[1] for f in fields)))
     w("    fn field_spec(raw: &[u8], off: usize) -> [u64; %d] {\n        [%s]\n    }\n" % (nf, ", ".join("(%s) as u64" % f[4] for f in fields)))
     arms = []
@@ -138,8 +145,8 @@ def gen_layer(key):
     }}
 
     // C15: serialising a freshly parsed (read-only) layer returns the captured bytes from its start
-    fn check_ro_serialise(off: usize) {{
-        let (a, rawrc) = any_raw();
+    fn check_ro_serialise(off: usize, first: Option<u8>) {{
+        let (a, rawrc) = any_raw_at(off, first);
         let r = {ty}::from_bytes(rawrc.clone(), off);
         if let Ok(t) = &r {{
             let out: Vec<u8> = t.into();
@@ -155,12 +162,12 @@ def gen_layer(key):
 {ser_proofs}
 """.format(ty=ty, key=key, hdrlen=hdrlen, nf=nf, raws=raws, MO=MO, H1=H + 1,
            fields_proofs="".join("    #[kani::proof] fn c16_%s_from_bytes_fields_off%d() { check_fields(%d); }\n" % (key, o, o) for o in offs),
-           ser_proofs="".join("    #[kani::proof] fn c15_%s_ro_serialise_off%d() { check_ro_serialise(%d); }\n" % (key, o, o) for o in offs)))
+           ser_proofs="".join("    #[kani::proof] fn c15_%s_ro_serialise_off%d%s() { check_ro_serialise(%d, %s); }\n" % (key, o, vs, o, vr) for o in offs for (vs, vr) in ser_vars)))
 
     # C17 setters
     w("""
-    fn check_setter(k: usize, set: fn(&{ty}, Rc<Object>) -> Result<(), String>, is_bool: bool) {{
-        let a: [u8; N] = kani::any();
+    fn check_setter(k: usize, set: fn(&{ty}, Rc<Object>) -> Result<(), String>, is_bool: bool, first: Option<u8>) {{
+        let (a, _) = any_raw_at(0, first);
         let r = {ty}::from_bytes(Rc::new(a.to_vec()), 0);
         if let Ok(t) = &r {{
             let before = snapshot(t);
@@ -200,8 +207,8 @@ def gen_layer(key):
         std::mem::forget(r);
     }}
     // serialised bytes differ from the captured ones only inside the assigned field's bit range
-    fn check_setter_frame(k: usize, set: fn(&{ty}, Rc<Object>) -> Result<(), String>, is_bool: bool) {{
-        let a: [u8; N] = kani::any();
+    fn check_setter_frame(k: usize, set: fn(&{ty}, Rc<Object>) -> Result<(), String>, is_bool: bool, first: Option<u8>) {{
+        let (a, _) = any_raw_at(0, first);
         let r = {ty}::from_bytes(Rc::new(a.to_vec()), 0);
         if let Ok(t) = &r {{
             let v: i64 = kani::any();
@@ -224,17 +231,19 @@ def gen_layer(key):
         if f[2] is None:
             continue
         isb = "true" if f[6] == "bool" else "false"
-        w("    #[kani::proof] fn c17_%s_%s_value() { check_setter(%d, %s::%s, %s); }\n" % (key, f[2], k, ty, f[2], isb))
-        w("    #[kani::proof] fn c17_%s_%s_frame() { check_setter_frame(%d, %s::%s, %s); }\n" % (key, f[2], k, ty, f[2], isb))
-        names.append(("c17_%s_%s_value" % (key, f[2]), "%s::%s: stored value = v reduced to %d bits (v itself when in range) or Err with nothing changed; other getters unchanged; re-parse reads the same value" % (ty, f[2], f[3])))
-        names.append(("c17_%s_%s_frame" % (key, f[2]), "%s::%s: serialised bytes differ from the captured bytes only inside bit range %s" % (ty, f[2], f[5])))
+        for (vs, vr) in set_vars:
+            w("    #[kani::proof] fn c17_%s_%s_value%s() { check_setter(%d, %s::%s, %s, %s); }\n" % (key, f[2], vs, k, ty, f[2], isb, vr))
+            w("    #[kani::proof] fn c17_%s_%s_frame%s() { check_setter_frame(%d, %s::%s, %s, %s); }\n" % (key, f[2], vs, k, ty, f[2], isb, vr))
+            tag = (" (first header byte fixed to %s)" % vr) if vs else ""
+            names.append(("c17_%s_%s_value%s" % (key, f[2], vs), "%s::%s: stored value = v reduced to %d bits (v itself when in range) or Err with nothing changed; other getters unchanged; re-parse reads the same value%s" % (ty, f[2], f[3], tag)))
+            names.append(("c17_%s_%s_frame%s" % (key, f[2], vs), "%s::%s: serialised bytes differ from the captured bytes only inside bit range %s%s" % (ty, f[2], f[5], tag)))
     w("}\n")
     hs = [
         dict(name="c16_%s_from_bytes_fields_off%d" % (key, o), props=["C16"], kind="complete",
              clause="%s::from_bytes(raw, %d): every getter equals the RFC field; Err iff the header does not fit; payload offset = off + header length (all header bytes symbolic)" % (ty, o)) for o in offs] + [
         dict(name="c16_%s_truncated_is_err" % key, props=["C16", "C08"], kind="complete",
              clause="%s::from_bytes on a buffer one byte longer than the header with off in 2..=64: Err, no panic" % ty),
-    ] + [dict(name="c15_%s_ro_serialise_off%d" % (key, o), props=["C15"], kind="bounded", bound="payload <= %d bytes, off = %d" % (X + MO - o, o),
-             clause="Vec::from(&%s::from_bytes(raw, %d)) == raw[%d..]" % (ty, o, o)) for o in offs
+    ] + [dict(name="c15_%s_ro_serialise_off%d%s" % (key, o, vs), props=["C15"], kind="bounded", bound="payload <= %d bytes, off = %d%s" % (X + MO - o, o, (", first header byte " + vr) if vs else ""),
+             clause="Vec::from(&%s::from_bytes(raw, %d)) == raw[%d..]" % (ty, o, o)) for o in offs for (vs, vr) in ser_vars
     ] + [dict(name=n, props=["C17"], kind="complete", clause=c) for n, c in names]
     return "".join(out), hs
